@@ -1,12 +1,893 @@
-//! C11 — (stub: no ops yet)
+//! C11 — search results do not depend on threads, scheduling or file batching
+//!
+//! Both ops share one request body:
+//!
+//!   <op> h:fasta mc minlen maxlen decoys bucket report chimera minmatched isolo isohi zlo zhi
+//!        annotate wide deiso minpeaks ptol ftol [F file…] [C (a b)…] reps seed
+//!     file     := [S spectrum…]
+//!     spectrum := u32(precursor m/z) z(0 = not annotated) u32(rt seconds) [n (u32 m/z, u32 intensity)…]
+//!     ptol     := 0: ±20 ppm | 1: ±2.5 Da | 2: ±50 Da          ftol := 0: ±10 ppm | 1: ±0.02 Da
+//!
+//! `search`: configs (a b) = (threads, jitter?) — the spectra of all files (file_id = file position, id
+//!   "f<file>s<scan>") are preprocessed with `SpectrumProcessor::process` and searched with the statement of
+//!   `Runner::search_processed_spectra` (`par_iter().filter(min_peaks, level 2).flat_map(|s| scorer.score(s))
+//!   .collect()`), first sequentially (`iter()`, reference configuration, always emitted first), then inside
+//!   rayon pools of the given sizes, each `reps` times, with a wrapper closure that yields / spins / sleeps
+//!   pseudo-randomly before `Scorer::score` when jitter = 1.
+//! `batch`: configs (a b) = (batch_size, threads) — FASTA and one MGF file per `file` are written to a
+//!   private temp dir, a real `sage_cli::runner::Runner` is built from them and `Runner::batch_files(&scorer,
+//!   batch_size)` is run inside a pool of `threads` threads, `reps` times per config.  The first run of the
+//!   reply, (0 0), is the reference: all spectra of all files in input order (file_id = file position),
+//!   preprocessed and scored one after the other without Runner, batching or threads.
+//!
+//! `downstream`: configs (a b) = (threads, unused) — the sequential search result is rescored with the real
+//!   `score_psms` (mass-error KDE, LDA, PEP KDE: the parallel float reductions) inside a pool of `threads`
+//!   threads; reply: K then per run: threads lda_ok [n (u32 discriminant_score, u32 posterior_error)…]
+//!
+//! reply (search, batch): K then per run:  a b dOrd dSet [n (key rank psm_id file file_id)…]
+//!   dOrd = digest of the feature list in output order, every field except psm_id, floats by bit pattern;
+//!   dSet = digest of the sorted list of per-feature digests; key = global position of the spectrum in the
+//!   input (files in order, scans in order); file = position of its file; file_id = Feature.file_id.
 use super::Info;
-use crate::proto::{Case, Rng, Tier, Toks};
+use crate::proto::{Case, Out, Rng, Tier, Toks};
+use rayon::prelude::*;
+use sage_core::database::{Builder, EnzymeBuilder, IndexedDatabase, Parameters};
+use sage_core::fasta::Fasta;
+use sage_core::ion_series::{IonSeries, Kind};
+use sage_core::mass::{Tolerance, PROTON};
+use sage_core::scoring::{Feature, ScoreType, Scorer};
+use sage_core::spectrum::{Precursor, ProcessedSpectrum, RawSpectrum, Representation, SpectrumProcessor};
+use std::collections::HashMap;
+use std::sync::{Arc, Mutex, OnceLock};
 
-pub const OPS: &[&str] = &[];
-pub const INFO: Info = Info { rule: "", serial: false };
+pub const OPS: &[&str] = &["search", "batch", "downstream"];
+pub const INFO: Info = Info {
+    rule: "a random FASTA (2-10 proteins, tryptic, optional decoys) is digested with the real Parameters::build; \
+           spectra are synthesised from database peptides' b/y ladders (70-100% of the ions, random intensities) \
+           plus noise peaks, with exact or slightly shifted precursors, annotated or missing charge, plus pure-noise \
+           spectra, duplicates of earlier spectra (score ties) and spectra below min_peaks (filtered); split over \
+           1-6 files. search: sequential reference, then pools of 1,2,3,4,8,16,32 threads x reps with and without \
+           jitter (yield/spin/sleep before Scorer::score); directed: many tiny spectra with report_psms 5 (counter \
+           contention), chimera, wide-window, isotope errors, annotate_matches. batch: real Runner over temp MGF \
+           files for every batch size 1..#files+1 (incl. partial last chunk, bs > #files) x pool sizes; directed: \
+           bs = 0 (chunks(0) panics), empty files, a single file. downstream: 120-650 spectra, decoys on, the sequential search result rescored by \
+           score_psms (KDE + LDA + PEP) in pools of 1,1,2,3,4,8,16,32 threads. non-trivial = at least 2 PSMs reported and at \
+           least one parallel configuration; distinct by request",
+    serial: true,
+};
 
-pub fn gen(_rng: &mut Rng, _tier: Tier, _emit: &mut dyn FnMut(Case)) {}
+// ------------------------------------------------------------------------------------------------ request
 
-pub fn exec(_op: &str, _t: &mut Toks) -> Option<String> {
-    None
+#[derive(Clone)]
+struct Spec {
+    pmz: f32,
+    z: u8,
+    rt_sec: f32,
+    peaks: Vec<(f32, f32)>,
+}
+
+#[derive(Clone)]
+struct Cfg {
+    fasta: String,
+    mc: u8,
+    min_len: usize,
+    max_len: usize,
+    decoys: bool,
+    bucket: usize,
+    report: usize,
+    chimera: bool,
+    min_matched: u16,
+    iso: (i8, i8),
+    z: (u8, u8),
+    annotate: bool,
+    wide: bool,
+    deiso: bool,
+    min_peaks: usize,
+    ptol: u8,
+    ftol: u8,
+}
+
+struct Req {
+    cfg: Cfg,
+    files: Vec<Vec<Spec>>,
+    configs: Vec<(usize, usize)>,
+    reps: usize,
+    seed: u64,
+}
+
+fn write_req(op: &str, r: &Req) -> String {
+    let c = &r.cfg;
+    let mut o = Out::new();
+    o.raw(op).s(&c.fasta).n(c.mc).n(c.min_len).n(c.max_len).b(c.decoys).n(c.bucket).n(c.report).b(c.chimera);
+    o.n(c.min_matched).n(c.iso.0).n(c.iso.1).n(c.z.0).n(c.z.1).b(c.annotate).b(c.wide).b(c.deiso);
+    o.n(c.min_peaks).n(c.ptol).n(c.ftol);
+    o.n(r.files.len());
+    for f in &r.files {
+        o.n(f.len());
+        for s in f {
+            o.f32(s.pmz).n(s.z).f32(s.rt_sec).n(s.peaks.len());
+            for &(m, i) in &s.peaks {
+                o.f32(m).f32(i);
+            }
+        }
+    }
+    o.n(r.configs.len());
+    for &(a, b) in &r.configs {
+        o.n(a).n(b);
+    }
+    o.n(r.reps).n(r.seed);
+    o.finish()
+}
+
+fn read_req(t: &mut Toks) -> Option<Req> {
+    let fasta = t.string()?;
+    let mc = t.usize()? as u8;
+    let min_len = t.usize()?;
+    let max_len = t.usize()?;
+    let decoys = t.bool()?;
+    let bucket = t.usize()?;
+    let report = t.usize()?;
+    let chimera = t.bool()?;
+    let min_matched = t.usize()? as u16;
+    let iso = (t.i64()? as i8, t.i64()? as i8);
+    let z = (t.usize()? as u8, t.usize()? as u8);
+    let annotate = t.bool()?;
+    let wide = t.bool()?;
+    let deiso = t.bool()?;
+    let min_peaks = t.usize()?;
+    let ptol = t.usize()? as u8;
+    let ftol = t.usize()? as u8;
+    let files = t.list(|t| {
+        t.list(|t| {
+            let pmz = t.f32()?;
+            let z = t.usize()? as u8;
+            let rt_sec = t.f32()?;
+            let peaks = t.list(|t| Some((t.f32()?, t.f32()?)))?;
+            Some(Spec { pmz, z, rt_sec, peaks })
+        })
+    })?;
+    let configs = t.list(|t| Some((t.usize()?, t.usize()?)))?;
+    let reps = t.usize()?;
+    let seed = t.tok()?.parse::<u64>().ok()?;
+    if !t.done() || iso.0 > iso.1 || z.0 > z.1 || z.0 == 0 {
+        return None;
+    }
+    Some(Req {
+        cfg: Cfg {
+            fasta, mc, min_len, max_len, decoys, bucket, report, chimera, min_matched, iso, z, annotate, wide,
+            deiso, min_peaks, ptol, ftol,
+        },
+        files,
+        configs,
+        reps,
+        seed,
+    })
+}
+
+// ------------------------------------------------------------------------------------------------ sage glue
+
+fn db_parameters(c: &Cfg, fasta_path: &str) -> Parameters {
+    let mut p = Builder { fasta: Some(fasta_path.to_string()), ..Default::default() }.make_parameters();
+    p.bucket_size = c.bucket.max(1).next_power_of_two();
+    p.enzyme = EnzymeBuilder {
+        missed_cleavages: Some(c.mc),
+        min_len: Some(c.min_len),
+        max_len: Some(c.max_len),
+        ..Default::default()
+    };
+    p.peptide_min_mass = 300.0;
+    p.peptide_max_mass = 6000.0;
+    p.generate_decoys = c.decoys;
+    p
+}
+
+fn tolerances(c: &Cfg) -> (Tolerance, Tolerance) {
+    let p = match c.ptol {
+        0 => Tolerance::Ppm(-20.0, 20.0),
+        1 => Tolerance::Da(-2.5, 2.5),
+        _ => Tolerance::Da(-50.0, 50.0),
+    };
+    let f = match c.ftol {
+        0 => Tolerance::Ppm(-10.0, 10.0),
+        _ => Tolerance::Da(-0.02, 0.02),
+    };
+    (p, f)
+}
+
+fn scorer<'a>(c: &Cfg, db: &'a IndexedDatabase) -> Scorer<'a> {
+    let (precursor_tol, fragment_tol) = tolerances(c);
+    Scorer {
+        db,
+        precursor_tol,
+        fragment_tol,
+        min_matched_peaks: c.min_matched,
+        min_isotope_err: c.iso.0,
+        max_isotope_err: c.iso.1,
+        min_precursor_charge: c.z.0,
+        max_precursor_charge: c.z.1,
+        override_precursor_charge: false,
+        max_fragment_charge: None,
+        chimera: c.chimera,
+        report_psms: c.report,
+        wide_window: c.wide,
+        annotate_matches: c.annotate,
+        score_type: ScoreType::SageHyperScore,
+    }
+}
+
+fn spec_id(file: usize, scan: usize) -> String {
+    format!("f{file}s{scan}")
+}
+
+fn raw_spectrum(file: usize, scan: usize, s: &Spec) -> RawSpectrum {
+    RawSpectrum {
+        file_id: file,
+        ms_level: 2,
+        id: spec_id(file, scan),
+        precursors: vec![Precursor {
+            mz: s.pmz,
+            charge: if s.z == 0 { None } else { Some(s.z) },
+            ..Default::default()
+        }],
+        representation: Representation::Centroid,
+        scan_start_time: s.rt_sec / 60.0,
+        ion_injection_time: 0.0,
+        total_ion_current: s.peaks.iter().map(|p| p.1).sum(),
+        mz: s.peaks.iter().map(|p| p.0).collect(),
+        intensity: s.peaks.iter().map(|p| p.1).collect(),
+        mobility: None,
+    }
+}
+
+fn mgf_text(file: usize, specs: &[Spec]) -> String {
+    let mut s = String::new();
+    for (scan, sp) in specs.iter().enumerate() {
+        s.push_str("BEGIN IONS\n");
+        s.push_str(&format!("TITLE={}\n", spec_id(file, scan)));
+        s.push_str(&format!("PEPMASS={}\n", sp.pmz));
+        if sp.z != 0 {
+            s.push_str(&format!("CHARGE={}+\n", sp.z));
+        }
+        s.push_str(&format!("RTINSECONDS={}\n", sp.rt_sec));
+        for &(m, i) in &sp.peaks {
+            s.push_str(&format!("{} {}\n", m, i));
+        }
+        s.push_str("END IONS\n");
+    }
+    s
+}
+
+fn pool(threads: usize) -> Arc<rayon::ThreadPool> {
+    static POOLS: OnceLock<Mutex<HashMap<usize, Arc<rayon::ThreadPool>>>> = OnceLock::new();
+    let m = POOLS.get_or_init(|| Mutex::new(HashMap::new()));
+    let mut g = m.lock().unwrap_or_else(|e| e.into_inner());
+    g.entry(threads)
+        .or_insert_with(|| Arc::new(rayon::ThreadPoolBuilder::new().num_threads(threads.max(1)).build().expect("pool")))
+        .clone()
+}
+
+fn mix(mut z: u64) -> u64 {
+    z = z.wrapping_add(0x9E37_79B9_7F4A_7C15);
+    z = (z ^ (z >> 30)).wrapping_mul(0xBF58_476D_1CE4_E5B9);
+    z = (z ^ (z >> 27)).wrapping_mul(0x94D0_49BB_1331_11EB);
+    z ^ (z >> 31)
+}
+
+/// schedule perturbation: called on the worker thread right before `Scorer::score`
+fn jitter(seed: u64, run: usize, task: usize) {
+    let h = mix(seed ^ mix((run as u64) << 32 | task as u64));
+    match h % 8 {
+        0 | 1 | 2 => {}
+        3 | 4 => {
+            for _ in 0..(1 + (h >> 8) % 4) {
+                std::thread::yield_now();
+            }
+        }
+        5 | 6 => {
+            for _ in 0..((h >> 8) % 3000) {
+                std::hint::spin_loop();
+            }
+        }
+        _ => std::thread::sleep(std::time::Duration::from_micros(5 + (h >> 8) % 60)),
+    }
+}
+
+// ------------------------------------------------------------------------------------------------ digests
+
+struct Fnv(u64);
+impl Fnv {
+    fn new() -> Self {
+        Fnv(0xcbf2_9ce4_8422_2325)
+    }
+    fn bytes(&mut self, b: &[u8]) {
+        for &x in b {
+            self.0 ^= x as u64;
+            self.0 = self.0.wrapping_mul(0x0000_0100_0000_01B3);
+        }
+    }
+    fn u64(&mut self, x: u64) {
+        self.bytes(&x.to_le_bytes());
+    }
+    fn f32(&mut self, x: f32) {
+        self.u64(x.to_bits() as u64);
+    }
+    fn f64(&mut self, x: f64) {
+        self.u64(x.to_bits());
+    }
+}
+
+/// every field of a Feature except `psm_id`, floats by bit pattern
+fn feature_digest(f: &Feature) -> u64 {
+    let mut h = Fnv::new();
+    h.u64(f.peptide_idx.0 as u64);
+    h.u64(f.peptide_len as u64);
+    h.u64(f.spec_id.len() as u64);
+    h.bytes(f.spec_id.as_bytes());
+    h.u64(f.file_id as u64);
+    h.u64(f.rank as u64);
+    h.u64(f.label as i64 as u64);
+    h.f32(f.expmass);
+    h.f32(f.calcmass);
+    h.u64(f.charge as u64);
+    h.f32(f.rt);
+    h.f32(f.aligned_rt);
+    h.f32(f.predicted_rt);
+    h.f32(f.delta_rt_model);
+    h.f32(f.ims);
+    h.f32(f.predicted_ims);
+    h.f32(f.delta_ims_model);
+    h.f32(f.delta_mass);
+    h.f32(f.isotope_error);
+    h.f32(f.average_ppm);
+    h.f64(f.hyperscore);
+    h.f64(f.delta_next);
+    h.f64(f.delta_best);
+    h.u64(f.matched_peaks as u64);
+    h.u64(f.longest_b as u64);
+    h.u64(f.longest_y as u64);
+    h.f32(f.longest_y_pct);
+    h.u64(f.missed_cleavages as u64);
+    h.f32(f.matched_intensity_pct);
+    h.u64(f.scored_candidates as u64);
+    h.f64(f.poisson);
+    h.f32(f.discriminant_score);
+    h.f32(f.posterior_error);
+    h.f32(f.spectrum_q);
+    h.f32(f.peptide_q);
+    h.f32(f.protein_q);
+    h.f32(f.ms2_intensity);
+    match &f.fragments {
+        None => h.u64(0),
+        Some(fr) => {
+            h.u64(1 + fr.charges.len() as u64);
+            for (i, &c) in fr.charges.iter().enumerate() {
+                h.u64(c as i64 as u64);
+                h.u64(fr.kinds[i] as u64);
+                h.u64(fr.fragment_ordinals[i] as i64 as u64);
+                h.f32(fr.intensities[i]);
+                h.f32(fr.mz_calculated[i]);
+                h.f32(fr.mz_experimental[i]);
+            }
+        }
+    }
+    h.0
+}
+
+fn emit_run(o: &mut Out, a: usize, b: usize, feats: &[Feature], keys: &HashMap<String, (usize, usize)>) {
+    let ds: Vec<u64> = feats.iter().map(feature_digest).collect();
+    let mut ord = Fnv::new();
+    for &d in &ds {
+        ord.u64(d);
+    }
+    let mut sorted = ds.clone();
+    sorted.sort_unstable();
+    let mut set = Fnv::new();
+    for &d in &sorted {
+        set.u64(d);
+    }
+    o.n(a).n(b).n(ord.0).n(set.0).n(feats.len());
+    for f in feats {
+        // a spectrum id the input does not contain would be a fabricated PSM: key = a value no input has
+        let (key, file) = keys.get(&f.spec_id).copied().unwrap_or((usize::MAX >> 8, usize::MAX >> 8));
+        o.n(key).n(f.rank).n(f.psm_id).n(file).n(f.file_id);
+    }
+}
+
+fn key_map(files: &[Vec<Spec>]) -> HashMap<String, (usize, usize)> {
+    let mut m = HashMap::new();
+    let mut k = 0usize;
+    for (fi, f) in files.iter().enumerate() {
+        for si in 0..f.len() {
+            m.insert(spec_id(fi, si), (k, fi));
+            k += 1;
+        }
+    }
+    m
+}
+
+// ------------------------------------------------------------------------------------------------ exec
+
+fn exec_search(r: &Req) -> Option<String> {
+    let params = db_parameters(&r.cfg, "-");
+    let fasta = Fasta::parse(r.cfg.fasta.clone(), params.decoy_tag.clone(), params.generate_decoys);
+    let db = params.build(fasta);
+    let sc = scorer(&r.cfg, &db);
+    let sp = SpectrumProcessor::new(150, r.cfg.deiso, 0.0);
+    let spectra: Vec<ProcessedSpectrum<sage_core::spectrum::Peak>> = r
+        .files
+        .iter()
+        .enumerate()
+        .flat_map(|(fi, f)| f.iter().enumerate().map(move |(si, s)| raw_spectrum(fi, si, s)))
+        .map(|s| sp.process(s))
+        .collect();
+    let keys = key_map(&r.files);
+    let min_peaks = r.cfg.min_peaks;
+    let index: HashMap<&str, usize> = spectra.iter().enumerate().map(|(i, s)| (s.id.as_str(), i)).collect();
+
+    let mut o = Out::new();
+    let runs = 1 + r.configs.len() * r.reps;
+    o.n(runs);
+    // reference: the sequential statement
+    let reference: Vec<Feature> = spectra
+        .iter()
+        .filter(|spec| spec.peaks.len() >= min_peaks && spec.level == 2)
+        .flat_map(|spec| sc.score(spec))
+        .collect();
+    emit_run(&mut o, 0, 0, &reference, &keys);
+    let mut run = 0usize;
+    for &(threads, jit) in &r.configs {
+        if threads == 0 || threads > 64 {
+            return None;
+        }
+        let p = pool(threads);
+        for _ in 0..r.reps {
+            run += 1;
+            let seed = r.seed;
+            let feats: Vec<Feature> = p.install(|| {
+                // the statement of Runner::search_processed_spectra, with the perturbation wrapper
+                let counter = std::sync::atomic::AtomicUsize::new(0);
+                spectra
+                    .par_iter()
+                    .filter(|spec| spec.peaks.len() >= min_peaks && spec.level == 2)
+                    .map(|x| {
+                        counter.fetch_add(1, std::sync::atomic::Ordering::Relaxed);
+                        x
+                    })
+                    .flat_map(|spec| {
+                        if jit != 0 {
+                            jitter(seed, run, index[spec.id.as_str()]);
+                        }
+                        sc.score(spec)
+                    })
+                    .collect()
+            });
+            emit_run(&mut o, threads, jit, &feats, &keys);
+        }
+    }
+    Some(o.finish())
+}
+
+/// `downstream`: the sequential search result is rescored (`score_psms`: mass-error KDE, LDA, PEP KDE — the
+/// parallel float reductions of kde.rs / matrix.rs) inside pools of the given sizes.
+/// reply: K then per run: threads lda_ok [n (u32 discriminant_score, u32 posterior_error)…]  (rows in input order)
+fn exec_downstream(r: &Req) -> Option<String> {
+    let params = db_parameters(&r.cfg, "-");
+    let fasta = Fasta::parse(r.cfg.fasta.clone(), params.decoy_tag.clone(), params.generate_decoys);
+    let db = params.build(fasta);
+    let sc = scorer(&r.cfg, &db);
+    let sp = SpectrumProcessor::new(150, r.cfg.deiso, 0.0);
+    let min_peaks = r.cfg.min_peaks;
+    let reference: Vec<Feature> = r
+        .files
+        .iter()
+        .enumerate()
+        .flat_map(|(fi, f)| f.iter().enumerate().map(move |(si, s)| raw_spectrum(fi, si, s)))
+        .map(|s| sp.process(s))
+        .filter(|spec| spec.peaks.len() >= min_peaks && spec.level == 2)
+        .flat_map(|spec| sc.score(&spec))
+        .collect();
+    let (ptol, _) = tolerances(&r.cfg);
+    let mut o = Out::new();
+    o.n(r.configs.len() * r.reps);
+    for &(threads, _) in &r.configs {
+        if threads == 0 || threads > 64 {
+            return None;
+        }
+        let p = pool(threads);
+        for _ in 0..r.reps {
+            let mut feats = reference.clone();
+            let ok = p.install(|| sage_core::ml::linear_discriminant::score_psms(&mut feats, ptol).is_some());
+            o.n(threads).b(ok).n(feats.len());
+            for f in &feats {
+                o.f32(f.discriminant_score).f32(f.posterior_error);
+            }
+        }
+    }
+    Some(o.finish())
+}
+
+struct TempDir(std::path::PathBuf);
+impl TempDir {
+    fn new() -> Self {
+        static N: std::sync::atomic::AtomicUsize = std::sync::atomic::AtomicUsize::new(0);
+        let n = N.fetch_add(1, std::sync::atomic::Ordering::Relaxed);
+        let t = std::time::SystemTime::now().duration_since(std::time::UNIX_EPOCH).map(|d| d.as_nanos()).unwrap_or(0);
+        let p = std::env::temp_dir().join(format!("sage-verif-c11-{}-{}-{}", std::process::id(), n, t));
+        std::fs::create_dir_all(&p).expect("temp dir");
+        TempDir(p)
+    }
+}
+impl Drop for TempDir {
+    fn drop(&mut self) {
+        let _ = std::fs::remove_dir_all(&self.0);
+    }
+}
+
+fn exec_batch(r: &Req) -> Option<String> {
+    use sage_cli::input::Search;
+    use sage_cli::runner::Runner;
+    let dir = TempDir::new();
+    let fasta_path = dir.0.join("db.fasta");
+    std::fs::write(&fasta_path, &r.cfg.fasta).ok()?;
+    let mut paths = Vec::new();
+    for (fi, f) in r.files.iter().enumerate() {
+        let p = dir.0.join(format!("file{fi}.mgf"));
+        std::fs::write(&p, mgf_text(fi, f)).ok()?;
+        paths.push(p.to_string_lossy().to_string());
+    }
+    let (precursor_tol, fragment_tol) = tolerances(&r.cfg);
+    let c = &r.cfg;
+    let search = Search {
+        version: "verif".into(),
+        database: db_parameters(c, &fasta_path.to_string_lossy()),
+        quant: Default::default(),
+        precursor_tol,
+        fragment_tol,
+        precursor_charge: c.z,
+        override_precursor_charge: false,
+        isotope_errors: c.iso,
+        deisotope: c.deiso,
+        chimera: c.chimera,
+        wide_window: c.wide,
+        min_peaks: c.min_peaks,
+        max_peaks: 150,
+        max_fragment_charge: None,
+        min_matched_peaks: c.min_matched,
+        report_psms: c.report,
+        predict_rt: false,
+        mzml_paths: paths,
+        output_paths: Vec::new(),
+        bruker_config: Default::default(),
+        output_directory: sage_cloudpath::CloudPath::Local(dir.0.clone()),
+        write_pin: false,
+        annotate_matches: c.annotate,
+        score_type: ScoreType::SageHyperScore,
+    };
+    let runner = Runner::new(search, 1).ok()?;
+    // exactly the Scorer that Runner::run builds from its parameters
+    let p = &runner.parameters;
+    let sc = Scorer {
+        db: &runner.database,
+        precursor_tol: p.precursor_tol,
+        fragment_tol: p.fragment_tol,
+        min_matched_peaks: p.min_matched_peaks,
+        min_isotope_err: p.isotope_errors.0,
+        max_isotope_err: p.isotope_errors.1,
+        min_precursor_charge: p.precursor_charge.0,
+        max_precursor_charge: p.precursor_charge.1,
+        override_precursor_charge: p.override_precursor_charge,
+        max_fragment_charge: p.max_fragment_charge,
+        chimera: p.chimera,
+        report_psms: p.report_psms,
+        wide_window: p.wide_window,
+        annotate_matches: p.annotate_matches,
+        score_type: p.score_type,
+    };
+    let keys = key_map(&r.files);
+    let mut o = Out::new();
+    // `chunks(0)` panics before anything is searched; do not consume ids for a reference run then
+    if r.configs.iter().any(|c| c.0 == 0) {
+        let _ = pool(1).install(|| runner.batch_files(&sc, 0));
+        return None;
+    }
+    o.n(1 + r.configs.len() * r.reps);
+    // reference run (0 0): no Runner, no batching, no threads — every spectrum of every file in input order,
+    // file_id = position of the file, preprocessed and scored one after the other
+    {
+        let sp = SpectrumProcessor::new(p.max_peaks, p.deisotope, 0.0);
+        let reference: Vec<Feature> = r
+            .files
+            .iter()
+            .enumerate()
+            .flat_map(|(fi, f)| f.iter().enumerate().map(move |(si, s)| raw_spectrum(fi, si, s)))
+            .map(|s| sp.process(s))
+            .filter(|spec| spec.peaks.len() >= p.min_peaks && spec.level == 2)
+            .flat_map(|spec| sc.score(&spec))
+            .collect();
+        emit_run(&mut o, 0, 0, &reference, &keys);
+    }
+    for &(bs, threads) in &r.configs {
+        if threads == 0 || threads > 64 {
+            return None;
+        }
+        let pl = pool(threads);
+        for _ in 0..r.reps {
+            // bs = 0: `chunks(0)` panics; the panic propagates through `install` to the harness' catch_unwind
+            let res = pl.install(|| runner.batch_files(&sc, bs));
+            emit_run(&mut o, bs, threads, &res.features, &keys);
+        }
+    }
+    Some(o.finish())
+}
+
+pub fn exec(op: &str, t: &mut Toks) -> Option<String> {
+    let r = read_req(t)?;
+    if r.reps == 0 || r.reps > 64 || r.configs.len() > 256 {
+        return None;
+    }
+    match op {
+        "search" => exec_search(&r),
+        "batch" => exec_batch(&r),
+        "downstream" => exec_downstream(&r),
+        _ => None,
+    }
+}
+
+// ------------------------------------------------------------------------------------------------ generator
+
+const AA: &[u8] = b"ACDEFGHILMNPQSTVWY";
+
+fn gen_fasta(rng: &mut Rng, nprot: usize) -> String {
+    let mut s = String::new();
+    for p in 0..nprot {
+        s.push_str(&format!(">sp|P{:04}|PROT{}\n", p, p));
+        let len = 30 + rng.below(90);
+        let mut since = 0usize;
+        for _ in 0..len {
+            since += 1;
+            let c = if since >= 5 && rng.chance(1, 6) || since >= 14 {
+                since = 0;
+                *rng.pick(b"KR")
+            } else {
+                *rng.pick(AA)
+            };
+            s.push(c as char);
+        }
+        s.push_str("K\n");
+    }
+    s
+}
+
+fn synth_spectrum(rng: &mut Rng, db: &IndexedDatabase, cfg: &Cfg, kind: usize) -> Spec {
+    let noise = |rng: &mut Rng, n: usize, peaks: &mut Vec<(f32, f32)>| {
+        for _ in 0..n {
+            peaks.push((100.0 + (rng.unit() * 1400.0) as f32, 1.0 + (rng.unit() * 200.0) as f32));
+        }
+    };
+    let rt_sec = (rng.unit() * 3600.0) as f32;
+    if kind == 0 || db.peptides.is_empty() {
+        // pure noise
+        let mut peaks = Vec::new();
+        let n = 5 + rng.below(40);
+        noise(rng, n, &mut peaks);
+        return Spec { pmz: 300.0 + (rng.unit() * 900.0) as f32, z: rng.below(4) as u8, rt_sec, peaks };
+    }
+    let pep = &db.peptides[rng.below(db.peptides.len())];
+    let z = 2 + rng.below(2) as u8;
+    let keep = 70 + rng.below(31) as u32;
+    let mut peaks = Vec::new();
+    for kind in [Kind::B, Kind::Y] {
+        for ion in IonSeries::new(pep, kind) {
+            if rng.chance(keep, 100) {
+                peaks.push((ion.monoisotopic_mass + PROTON, 10.0 + (rng.unit() * 990.0) as f32));
+            }
+        }
+    }
+    let n = rng.below(25);
+    noise(rng, n, &mut peaks);
+    if kind == 2 {
+        // too few peaks: dropped by the min_peaks filter
+        peaks.truncate(cfg.min_peaks.saturating_sub(1).min(peaks.len()));
+        if peaks.is_empty() {
+            peaks.push((200.0, 5.0));
+        }
+    }
+    let mut pmz = pep.monoisotopic / z as f32 + PROTON;
+    if kind == 3 {
+        // shifted precursor: one isotope off / inside a wide Da window
+        pmz += 1.00335 / z as f32;
+    }
+    let annotated = !rng.chance(1, 5);
+    Spec { pmz, z: if annotated { z } else { 0 }, rt_sec, peaks }
+}
+
+struct Shape {
+    nprot: usize,
+    nspec: usize,
+    nfiles: usize,
+    report: usize,
+    chimera: bool,
+    wide: bool,
+    iso: (i8, i8),
+    annotate: bool,
+    ptol: u8,
+    small_spectra: bool,
+}
+
+fn gen_inputs(rng: &mut Rng, sh: &Shape) -> Option<(Cfg, Vec<Vec<Spec>>, usize)> {
+    let cfg = Cfg {
+        fasta: gen_fasta(rng, sh.nprot),
+        mc: rng.below(3) as u8,
+        min_len: 5 + rng.below(3),
+        max_len: 20 + rng.below(30),
+        decoys: rng.chance(3, 4),
+        bucket: *rng.pick(&[2usize, 8, 64, 8192]),
+        report: sh.report,
+        chimera: sh.chimera,
+        min_matched: *rng.pick(&[1u16, 2, 4]),
+        iso: sh.iso,
+        z: (2, 2 + rng.below(3) as u8),
+        annotate: sh.annotate,
+        wide: sh.wide,
+        deiso: rng.chance(1, 3),
+        min_peaks: *rng.pick(&[1usize, 8, 15]),
+        ptol: sh.ptol,
+        ftol: rng.below(2) as u8,
+    };
+    let params = db_parameters(&cfg, "-");
+    let fasta = Fasta::parse(cfg.fasta.clone(), params.decoy_tag.clone(), params.generate_decoys);
+    // Parameters::build panics when nothing survives digestion (outside C11): skip such a FASTA
+    let db = std::panic::catch_unwind(|| params.build(fasta)).ok()?;
+    if db.peptides.is_empty() {
+        return None;
+    }
+    let mut all: Vec<Spec> = Vec::new();
+    for i in 0..sh.nspec {
+        let kind = match rng.below(10) {
+            0 => 0,
+            1 => 2,
+            2 => 3,
+            3 if i > 0 => 4,
+            _ => 1,
+        };
+        let mut s = if kind == 4 {
+            all[rng.below(all.len())].clone() // exact duplicate of an earlier spectrum (ties across tasks)
+        } else {
+            synth_spectrum(rng, &db, &cfg, kind)
+        };
+        if sh.small_spectra {
+            s.peaks.truncate(12);
+        }
+        all.push(s);
+    }
+    // split over files: sizes random, some files may be empty
+    let mut files: Vec<Vec<Spec>> = vec![Vec::new(); sh.nfiles.max(1)];
+    for s in all {
+        let k = rng.below(files.len());
+        files[k].push(s);
+    }
+    // expected number of PSMs is only known after a search; estimate for the non-triviality tag
+    let sc = scorer(&cfg, &db);
+    let sp = SpectrumProcessor::new(150, cfg.deiso, 0.0);
+    let mut npsm = 0usize;
+    for (fi, f) in files.iter().enumerate() {
+        for (si, s) in f.iter().enumerate() {
+            let p = sp.process(raw_spectrum(fi, si, s));
+            if p.peaks.len() >= cfg.min_peaks {
+                npsm += std::panic::catch_unwind(std::panic::AssertUnwindSafe(|| sc.score(&p).len())).unwrap_or(0);
+            }
+        }
+    }
+    Some((cfg, files, npsm))
+}
+
+pub fn gen(rng: &mut Rng, tier: Tier, emit: &mut dyn FnMut(Case)) {
+    let quick = tier == Tier::Quick;
+    let all_pools: &[usize] = &[1, 2, 3, 4, 8, 16, 32];
+    // ---------------------------------------------------------------- search
+    let n_search = if quick { 24 } else { 400 };
+    for i in 0..n_search {
+        let directed = i % 8;
+        let sh = Shape {
+            nprot: 2 + rng.below(9),
+            nspec: if directed == 1 { if quick { 150 } else { 600 } } else { 4 + rng.below(if quick { 40 } else { 120 }) },
+            nfiles: 1 + rng.below(4),
+            report: if directed == 1 { 5 } else { 1 + rng.below(4) },
+            chimera: directed == 2,
+            wide: directed == 3,
+            iso: if directed == 4 { (-1, 3) } else { (0, 0) },
+            annotate: directed == 5,
+            ptol: if directed == 1 { 2 } else { rng.below(3) as u8 },
+            small_spectra: directed == 1,
+        };
+        let Some((mut cfg, files, npsm)) = gen_inputs(rng, &sh) else { continue };
+        if directed == 1 {
+            cfg.min_peaks = 1;
+            cfg.min_matched = 1;
+        }
+        let mut configs = Vec::new();
+        for &t in all_pools {
+            if directed == 1 && t < 4 {
+                continue;
+            }
+            configs.push((t, 1usize));
+            if rng.chance(1, 2) {
+                configs.push((t, 0usize));
+            }
+        }
+        let reps = if quick { 1 + rng.below(2) } else { 2 + rng.below(3) };
+        let req = Req { cfg, files, configs, reps, seed: rng.next() >> 1 };
+        let tag = match directed {
+            1 => "search:counter-contention",
+            2 => "search:chimera",
+            3 => "search:wide-window",
+            4 => "search:isotope-errors",
+            5 => "search:annotate-matches",
+            _ => "search:standard",
+        };
+        emit(Case::new(write_req("search", &req)).tag(tag).tag_if(npsm < 2, "few-psms").nontrivial(npsm >= 2));
+    }
+    // ---------------------------------------------------------------- downstream
+    let n_down = if quick { 4 } else { 40 };
+    for i in 0..n_down {
+        let sh = Shape {
+            nprot: 6 + rng.below(8),
+            nspec: if quick { 120 + rng.below(120) } else { 150 + rng.below(500) },
+            nfiles: 1,
+            report: 2 + rng.below(3),
+            chimera: false,
+            wide: false,
+            iso: (0, 0),
+            annotate: false,
+            ptol: if i % 2 == 0 { 1 } else { 2 },
+            small_spectra: false,
+        };
+        let Some((mut cfg, files, npsm)) = gen_inputs(rng, &sh) else { continue };
+        cfg.decoys = true;
+        // reference first: a single-thread pool
+        let configs: Vec<(usize, usize)> = [1usize, 1, 2, 3, 4, 8, 16, 32].iter().map(|&t| (t, 0usize)).collect();
+        let req = Req { cfg, files, configs, reps: if quick { 1 } else { 2 }, seed: 0 };
+        emit(Case::new(write_req("downstream", &req)).tag("downstream:lda-kde").nontrivial(npsm >= 20));
+    }
+    // ---------------------------------------------------------------- batch
+    let n_batch = if quick { 10 } else { 120 };
+    for i in 0..n_batch {
+        let nfiles = match i % 5 {
+            0 => 1,
+            1 => 2,
+            _ => 3 + rng.below(4),
+        };
+        let sh = Shape {
+            nprot: 2 + rng.below(6),
+            nspec: 3 + rng.below(if quick { 20 } else { 60 }),
+            nfiles,
+            report: 1 + rng.below(3),
+            chimera: rng.chance(1, 6),
+            wide: false,
+            iso: (0, 0),
+            annotate: rng.chance(1, 6),
+            ptol: rng.below(3) as u8,
+            small_spectra: false,
+        };
+        let Some((cfg, files, npsm)) = gen_inputs(rng, &sh) else { continue };
+        let has_empty = files.iter().any(|f| f.is_empty());
+        // (the reply starts with the unbatched sequential reference) batch size 1 in a single-thread pool,
+        // then every batch size up to #files + 1
+        let mut configs = vec![(1usize, 1usize)];
+        for bs in 1..=nfiles + 1 {
+            configs.push((bs, *rng.pick(&[2usize, 3, 4, 8, 16])));
+        }
+        configs.push((nfiles + 7, 2));
+        let req = Req { cfg: cfg.clone(), files: files.clone(), configs, reps: if quick { 1 } else { 2 }, seed: 0 };
+        emit(Case::new(write_req("batch", &req))
+            .tag("batch:all-sizes")
+            .tag_if(nfiles == 1, "batch:single-file")
+            .tag_if(has_empty, "batch:empty-file")
+            .nontrivial(npsm >= 2 && nfiles >= 2));
+        if i % 5 == 2 {
+            // batch size 0: `slice::chunks(0)` panics (what `sage` passes on a 1-CPU machine without --batch-size)
+            let req0 = Req { cfg, files, configs: vec![(0, 1)], reps: 1, seed: 0 };
+            emit(Case::new(write_req("batch", &req0)).tag("batch:size-0-panics").nontrivial(false));
+        }
+    }
 }
